@@ -1,11 +1,23 @@
-import AslModel.Lemmas.MacroLabels
+import AslModel.Lemmas.MacroLabelsConv
 /-! C11, labels of enclosing expansions seen from nested bodies: property theorems over `Model/MacroLabels.lean`
-(`FindLocNode` and the handle stack of `asmpars.c`, handle discipline of the construct processors of `as.c`).
-Unbounded: any nesting depth, any number of iterations, any tables.
+(`FindLocNode` and the handle stack of `asmpars.c`, handle discipline of the construct processors of `as.c`, the pass loop).
+Unbounded: any nesting depth, any number of iterations, any tables, any program tree.
 
-NOT proved here: `bytesOf (model) = bytesOf (spec)` for every program (model = hand expansion); the two are compared by
-running them (driver mode `c11lab`) next to the real assembler.  Full statement kept for whoever continues:
-`∀ prog, NoDoubleDef prog → MacroLabels.bytesOf prog = MacroLabelsSpec.bytesOf prog`. -/
+The whole-program statement (second half of the file), **model = hand expansion**:
+`∀ prog, NoDoubleDef prog → NoEarlyBind prog → MacroLabels.bytesOf prog = MacroLabelsSpec.bytesOf prog` (`C11_labels_refines`)
+for every program tree - MACRO / REPT / IRP / IRPN / IRPC / WHILE nested to any depth, 0..n iterations, with / without
+GLOBALSYMBOLS, bodies expanded several times.  Both hypotheses are decidable predicates on the list of executed statements
+(`Model/MacroLabelsFlat.lean`; the driver evaluates them on every generated program):
+* `NoDoubleDef`: no label statement is executed twice under the same key (the assembler reports "symbol double defined");
+* `NoEarlyBind`: no reference stands in front of the label it means while a label of that name of an enclosing copy, or the
+  global symbol of that name, is already entered - the class of the known finding
+  `forward-ref-in-macro-body-binds-outer-symbol-when-no-second-pass` / `forward-reference-to-local-label-takes-outer-label`.
+Both are needed (`C11_labels_refines_hypothesis_needed`, `C11_labels_refines_nodoubledef_needed`).  Without `NoEarlyBind` the
+statement holds whenever a second pass is made: `C11_labels_refines_second_pass` (some reference of pass 1 found nothing),
+`C11_labels_refines_extra_pass` (hook `ASL_VERIF_EXTRA_PASSES=1`); and these are all cases: `C11_labels_refines_iff`.
+Proof: `Lemmas/MacroLabelsFlat.lean` (model = table machine over the executed statements, SPEC = a map over the same list),
+`Lemmas/MacroLabelsRun.lean` (the table machine lays down the image when the chains are consistent),
+`Lemmas/MacroLabelsWf.lean` (the chains of every program are consistent), `Lemmas/MacroLabelsConv.lean` (the converse). -/
 namespace AslModel.MacroLabels
 open AslModel.MacroLabelsSpec
 
@@ -103,5 +115,108 @@ example : lookup (enter 3 { s1 with gtab := [(1, 77)] }) 1 = some 5 := by decide
 example : lookup (enter 3 { s1 with gtab := [(1, 77)] }) 2 = none := by decide
 example : lookup { (enter 3 s1) with gtab := [(2, 77)] } 2 = some 77 := by decide
 end Examples
+
+/-! ## the run of the model is the hand expansion -/
+
+/-- **`C11_labels_refines`: the code of the construct program is the code of its hand expansion**, for every program tree:
+the bytes the model lays down (handle stack, `FindLocNode` over the whole chain, local before global, the pass loop) are the
+bytes of the SPEC's hand expansion with the labels of every body copy renamed (`none` = the name is defined nowhere, both
+refuse) -/
+theorem C11_labels_refines (prog : Items) (hnd : NoDoubleDef prog) (hne : NoEarlyBind prog) :
+    MacroLabels.bytesOf prog = MacroLabelsSpec.bytesOf prog := by
+  rw [spec_bytes_flat]
+  exact assemble_flat prog (flat_wf prog) hnd hne
+
+/-- with one more pass in any case (hook `ASL_VERIF_EXTRA_PASSES=1`, `assemble2`) the order of references and labels does
+not matter -/
+theorem C11_labels_refines_extra_pass (prog : Items) (hnd : NoDoubleDef prog) :
+    (assemble2 prog).out.reverse = MacroLabelsSpec.bytesOf prog := by
+  rw [spec_bytes_flat]
+  exact pass2_flat prog (flat_wf prog) hnd
+
+/-- ... nor does it when anything in the first pass asked for a second one (any reference that found nothing) -/
+theorem C11_labels_refines_second_pass (prog : Items) (hnd : NoDoubleDef prog)
+    (h2 : (pass {} prog).out.any Option.isNone = true) :
+    MacroLabels.bytesOf prog = MacroLabelsSpec.bytesOf prog := by
+  rw [← C11_labels_refines_extra_pass prog hnd]
+  unfold MacroLabels.bytesOf assemble assemble2
+  simp only [h2, if_true]
+
+/-- **exactly when**: for a program without double definitions the code is the hand expansion's if and only if no reference is
+bound early or the first pass asks for a second one - the known finding is the whole difference between the model (= the real
+assembler, compared every run) and the hand expansion -/
+theorem C11_labels_refines_iff (prog : Items) (hnd : NoDoubleDef prog) :
+    MacroLabels.bytesOf prog = MacroLabelsSpec.bytesOf prog ↔
+      (NoEarlyBind prog ∨ (pass {} prog).out.any Option.isNone = true) := by
+  constructor
+  · intro h
+    by_cases hne : NoEarlyBind prog
+    · exact Or.inl hne
+    · right
+      cases hany : (pass {} prog).out.any Option.isNone with
+      | true => rfl
+      | false =>
+        exfalso
+        rw [spec_bytes_flat] at h
+        have hne' : noEarlyBindL [] (flat prog) = false := by
+          unfold NoEarlyBind at hne
+          cases hq : noEarlyBindL [] (flat prog) with
+          | true => exact absurd hq hne
+          | false => rfl
+        exact assemble_flat_conv prog hnd hne' hany h
+  · intro h
+    rcases h with h | h
+    · exact C11_labels_refines prog hnd h
+    · exact C11_labels_refines_second_pass prog hnd h
+
+/-- the hypotheses speak about keys of the model; **in the SPEC's words `NoDoubleDef` is: no two label statements of the hand
+expansion have the same (renamed) name** (`noDoubleEv` over `MacroLabelsSpec.expand`, nothing of the model in it) -/
+theorem C11_labels_nodoubledef_spec (prog : Items) : NoDoubleDef prog ↔ noDoubleEv (expand prog) = true := by
+  unfold NoDoubleDef
+  rw [noDoubleDefL_spec (flat_wf prog) (flat prog) (fun _ h => h), expand_flat]
+
+/-- the chains are consistent for every program: a handle / a copy number names one body copy, the labels of a copy's body text
+are the keys entered under its handle -/
+theorem C11_labels_chains_consistent (prog : Items) : WF (flat prog) := flat_wf prog
+
+/-- the hand expansion is the list of executed statements with the SPEC's naming -/
+theorem C11_labels_expand_flat (prog : Items) : expand prog = (flat prog).map specEv := expand_flat prog
+
+/-- one pass of the model is the table machine over the list of executed statements -/
+theorem C11_labels_pass_flat (st : St) (prog : Items) :
+    tbOf (pass st prog) = runT ⟨st.ltab, st.gtab, 0, []⟩ (flat prog) := pass_flat st prog
+
+section RefineExamples
+-- the hypotheses hold for the demo program (MACRO called twice > REPT 2 > IRP 2, global namesake in front, 16 statements)
+example : NoDoubleDef demo ∧ NoEarlyBind demo := by decide
+example : (flat demo).length = 16 ∧ ((flat demo).map (fun x => x.fr.length)).max? = some 3 := by decide
+/-- a forward reference that is harmless: REPT 2 { `db lb1` · `lb1:` } without any namesake - pass 1 finds nothing, pass 2 is made -/
+def fwdOk : Items := .cons (.con false false 2 (.cons (.ref 1) (.cons (.lab 1) .nil))) .nil
+example : NoDoubleDef fwdOk ∧ NoEarlyBind fwdOk ∧ (pass {} fwdOk).out.any Option.isNone = true ∧
+    MacroLabels.bytesOf fwdOk = [some 1, some 129, some 3, some 129] := by decide
+/-- the witness of the known finding: `lb1:` global · macro call { `db lb1` · `lb1:` } -/
+def fwdBad : Items := .cons (.lab 1) (.cons (.con false false 1 (.cons (.ref 1) (.cons (.lab 1) .nil))) .nil)
+/-- the same label twice at top level, then a reference -/
+def dbl : Items := .cons (.lab 1) (.cons (.lab 1) (.cons (.ref 1) .nil))
+example : noDoubleEv (expand demo) = true ∧ noDoubleEv (expand dbl) = false := by decide
+end RefineExamples
+
+/-- **`NoEarlyBind` cannot be dropped**: `NoDoubleDef` holds, the reference in front of the body's own label finds the global
+`lb1` (address 0) in pass 1, nothing asks for a second pass; the hand expansion means the copy's label (address 2) -/
+theorem C11_labels_refines_hypothesis_needed :
+    NoDoubleDef fwdBad ∧ ¬ NoEarlyBind fwdBad ∧
+      MacroLabels.bytesOf fwdBad = [some 129, some 0, some 129] ∧
+      MacroLabelsSpec.bytesOf fwdBad = [some 129, some 2, some 129] ∧
+      (assemble2 fwdBad).out.reverse = MacroLabelsSpec.bytesOf fwdBad := by decide
+
+/-- the known finding on the model (`forward-ref-in-macro-body-binds-outer-symbol-when-no-second-pass`): one pass only, no
+reference undefined, the code keeps the outer label's address -/
+theorem C11_finding_forward_ref_binds_outer :
+    (pass {} fwdBad).out.any Option.isNone = false ∧ MacroLabels.bytesOf fwdBad ≠ MacroLabelsSpec.bytesOf fwdBad := by decide
+
+/-- **`NoDoubleDef` cannot be dropped**: the table keeps the last definition, the hand expansion's address is that of the first
+(the real assembler refuses the program: "symbol double defined") -/
+theorem C11_labels_refines_nodoubledef_needed :
+    ¬ NoDoubleDef dbl ∧ NoEarlyBind dbl ∧ MacroLabels.bytesOf dbl ≠ MacroLabelsSpec.bytesOf dbl := by decide
 
 end AslModel.MacroLabels
